@@ -73,6 +73,10 @@ RAW_SQL = [
     "SELECT w.x, count(w.y) FROM t RIGHT JOIN w ON t.i = w.x GROUP BY w.x", "SELECT t.s, w.y FROM w LEFT JOIN t ON t.i = w.x ORDER BY w.y",
     "SELECT t.f, w.y FROM w RIGHT JOIN t ON t.i = w.x", "SELECT w.y, t.b FROM t LEFT JOIN w ON t.i = w.x WHERE t.b > 5",
     "SELECT a.y, b.y, t.s FROM w a JOIN w b ON a.x = b.x RIGHT JOIN t ON t.i = a.x",
+    # names that are paths or too long to be a directory name (CREATE DATABASE used to panic on the last)
+    'CREATE DATABASE "a/b"', 'USE "../x"', 'CREATE DATABASE "."', 'CREATE DATABASE "%s"' % ("L" * 300), 'USE "%s"' % ("m" * 300),
+    'CREATE TABLE "%s" (a INT)' % ("t" * 300), 'CREATE TABLE tc ("%s" INT)' % ("c" * 300), "INSERT INTO t (zz) VALUES (1)",
+    "INSERT INTO t (i, i) VALUES (1, 2)", "UPDATE t SET zz = 1", "CREATE TABLE dd (a INT, a INT)",
     "INSERT INTO sys_pages VALUES ('x', 5)", "UPDATE sys_pages SET file_offset = 12345", "DELETE FROM sys_schema", "SELECT * FROM sys_pages", "SELECT * FROM sys_schema",
 ]
 
